@@ -73,6 +73,7 @@ class Spec:
         self.chans = ['#x', '&y']
         self.masks = ['a*!*@*', 'bob!*@*']           # ban / exception / invite-exception menu (relative to the nick universe)
         self.server = 'irc.irc'
+        self.distinct_unames = True     # a universe user's user name (ident) differs from its nick: 'u' + nick (helper zz: zz)
         self.sym_users = False          # bob, carol, ... registered or not
         self.sym_modes = True           # user modes symbolic
         self.sym_away = True
@@ -103,6 +104,9 @@ class Spec:
         self.ping_timeout = 120
         self.pong_timeout = 20
         self.__dict__.update(kw)
+
+    def uname(self, n):
+        return ('u' + n) if (self.distinct_unames and n != 'zz') else n
 
 class World:
     def __init__(self, M, prog, spec=None, fixed=None, partial=None):
@@ -145,7 +149,7 @@ class World:
         return t
 
     def source(self, n):
-        return f'{n}!~{n}@{self.spec.hosts.get(n, "127.0.0.1")}'
+        return f'{n}!~{self.spec.uname(n)}@{self.spec.hosts.get(n, "127.0.0.1")}'
 
     # construction --------------------------------------------------------------------------------------
     def build(self):
@@ -197,12 +201,12 @@ class World:
             os_ = OneShot('kill_' + n); self.kill[n] = os_
             modes = S('UserModes', **{m: self.umode[(n, m)] for m in UMODES})
             u = S('User', hostname=mkstring(sp.hosts.get(n, '127.0.0.1')), sender=mk_sender(ch), quit_sender=some(mk_oneshot_sender(os_)),
-                  name=mkstring(n), realname=mkstring('Real ' + n), source=mkstring(self.source(n)), modes=modes,
+                  name=mkstring(sp.uname(n)), realname=mkstring('Real ' + n), source=mkstring(self.source(n)), modes=modes,
                   away=opt_sym(self.away[n], mkstring(sp.away_text)),
                   channels=hset([(c, self.member[(n, c)]) for c in sp.chans]),
                   invited_to=hset([(c, self.invited[(n, c)]) for c in sp.chans]),
                   last_activity=self.T('act_' + n), signon=self.T('signon_' + n),
-                  history_entry=S('NickHistoryEntry', username=mkstring(n), hostname=mkstring(sp.hosts.get(n, '127.0.0.1')), realname=mkstring('Real ' + n), signon=self.T('hsignon_' + n)))
+                  history_entry=S('NickHistoryEntry', username=mkstring(sp.uname(n)), hostname=mkstring(sp.hosts.get(n, '127.0.0.1')), realname=mkstring('Real ' + n), signon=self.T('hsignon_' + n)))
             cell = Cell(u); self.user_cells[n] = cell
             users.slots.append([n, self.reg[n], cell])
         M.env['wall_min'] = z3.BitVecVal(1000, 64)
@@ -304,13 +308,13 @@ class World:
             sender = some(mk_sender(ch)); quit_sender = some(mk_oneshot_sender(kill))
             self.queues.setdefault('conn:' + key, ch); self.kill.setdefault('conn:' + key, kill)
         host = sp.hosts.get(nick or 'dave', '127.0.0.1')
-        uname = name if name is not None else (nick if registered else None)
+        uname = name if name is not None else (sp.uname(nick) if registered else None)
         src = ''
         if nick: src += nick + '!'
         if uname: src += '~' + uname
         src += '@' + host
         us = S('ConnUserState', ip_addr=Opaque('ip', host.encode()), hostname=mkstring(host),
-               name=(some(mkstring(uname)) if uname else NONE()), realname=(some(mkstring('Real ' + uname)) if uname else NONE()),
+               name=(some(mkstring(uname)) if uname else NONE()), realname=(some(mkstring('Real ' + (nick if (registered and name is None) else uname))) if uname else NONE()),
                nick=(some(mkstring(nick)) if nick else NONE()), source=mkstring(src),
                password=(some(mkstring(password)) if password else NONE()),
                authenticated=(registered if authenticated is None else authenticated), registered=user_registered)
